@@ -611,7 +611,7 @@ func (w *world) account(p *wop, err error, n int) {
 		}
 		if w.checkContent {
 			if err == nil {
-				if n == 0 {
+				if n == 0 && len(p.buf) > 0 {
 					w.fail("op #%d (%s on %s) succeeded with 0 bytes", p.id, p.kind, o.name())
 				}
 				if p.kind == "readAll" && n != len(p.buf) {
@@ -637,7 +637,7 @@ func (w *world) account(p *wop, err error, n int) {
 			return
 		}
 		if w.checkContent && err == nil {
-			if n == 0 {
+			if n == 0 && len(p.buf) > 0 {
 				w.fail("op #%d (%s on %s) succeeded with 0 bytes", p.id, p.kind, o.name())
 			}
 			if p.kind == "writeAll" && n != len(p.buf) {
@@ -645,7 +645,7 @@ func (w *world) account(p *wop, err error, n int) {
 			}
 		}
 		o.wrOff += int64(n)
-		if err != nil {
+		if err != nil && len(p.buf) > 0 {
 			// after a failed or cancelled write the number of bytes that really left is only bounded below by n;
 			// the stream position of later writes is unknown, so no more writes are issued on this object
 			o.wrErrored = true
